@@ -55,6 +55,15 @@ class ExprMixin:
       return v
     if name in self.builtins:
       return self.builtins[name]
+    if self.pure_mode and name in getattr(self, 'path_ghosts', {}):
+      return self.path_ghosts[name]
+    if self.pure_mode and getattr(self, 'top_contract', None) is not None and name in self.top_contract.ghost:
+      # a declared ghost variable that has no value on this path (e.g. the ghost result of a callee that was not
+      # reached): an arbitrary value of its sort
+      gs = self.top_contract.ghost[name]
+      v = V(gs, gs.fresh('unset_' + name))
+      self.env[name] = v
+      return v
     raise Unsupported('unknown name %r (line %s)' % (
         name, getattr(node, 'lineno', '?')))
 
